@@ -181,14 +181,22 @@ fn fresh_process_digest(c: &CompileCase) -> Result<String, String> {
     use std::os::unix::process::CommandExt;
     let exe = std::env::current_exe().map_err(|e| e.to_string())?;
     let mut cmd = std::process::Command::new(exe);
-    cmd.args(["render", &c.bits.to_string(), &c.level.to_string(), &c.program]);
+    // the source goes through stdin: it may contain NUL or be larger than an argument may be
+    cmd.args(["render", &c.bits.to_string(), &c.level.to_string(), "-"]);
+    cmd.stdin(std::process::Stdio::piped()).stdout(std::process::Stdio::piped()).stderr(std::process::Stdio::piped());
     unsafe {
         cmd.pre_exec(|| {
             libc::personality(0x0040000); // ADDR_NO_RANDOMIZE
             Ok(())
         });
     }
-    let out = cmd.output().map_err(|e| e.to_string())?;
+    let mut child = cmd.spawn().map_err(|e| e.to_string())?;
+    {
+        use std::io::Write as _;
+        let mut si = child.stdin.take().ok_or("no stdin")?;
+        si.write_all(c.program.as_bytes()).map_err(|e| e.to_string())?;
+    }
+    let out = child.wait_with_output().map_err(|e| e.to_string())?;
     if !out.status.success() {
         return Err(format!("render process ended {:?}: {}", out.status, String::from_utf8_lossy(&out.stderr).chars().take(300).collect::<String>()));
     }
